@@ -78,6 +78,9 @@ Inductive expr :=
 | Div (a b : expr)           (* true division *)
 | ToFloat (a : expr)         (* sqrt, mean, ... of a possibly integer value *)
 | RealOf (a : expr)          (* abs, norm, real *)
+| Alt (a b : expr)           (* one of a, b / a container holding both: the alternatives of an if / try, the elements of a list or tuple, the
+                                array arguments handed to a library function.  Dtype-wise the promotion (conservative for the precision class);
+                                known to be EXACTLY tau only if BOTH are.  Used by the programs extracted from the source, not by the skeletons *)
 | Into (target value : expr). (* target[...] = value / index_update / in-place operators / tl.tensor(value, **tl.context(target))
                                 / allocation with **tl.context(target): the dtype of target, whatever value is *)
 
@@ -94,7 +97,7 @@ Fixpoint eval (en : env) (st : state) (e : expr) : dt :=
   match e with
   | Leaf l => leaf_dt en l
   | Var x => st x
-  | Op a b => promote (eval en st a) (eval en st b)
+  | Op a b | Alt a b => promote (eval en st a) (eval en st b)
   | Div a b => to_float (promote (eval en st a) (eval en st b))
   | ToFloat a => to_float (eval en st a)
   | RealOf a => real_of (eval en st a)
@@ -115,7 +118,7 @@ Fixpoint leaves_in (en : env) (st : state) (t : dt) (e : expr) : bool :=
   match e with
   | Leaf l => inS t (leaf_dt en l)
   | Var x => inS t (st x)
-  | Op a b | Div a b => leaves_in en st t a && leaves_in en st t b
+  | Op a b | Div a b | Alt a b => leaves_in en st t a && leaves_in en st t b
   | ToFloat a => leaves_in en st t a
   | RealOf a => is_real t && leaves_in en st t a
   | Into tg _ => leaves_in en st t tg
@@ -124,7 +127,7 @@ Fixpoint has_strong (en : env) (st : state) (t : dt) (e : expr) : bool :=
   match e with
   | Leaf l => dt_eqb (leaf_dt en l) t
   | Var x => dt_eqb (st x) t
-  | Op a b | Div a b => has_strong en st t a || has_strong en st t b
+  | Op a b | Div a b | Alt a b => has_strong en st t a || has_strong en st t b
   | ToFloat a | RealOf a => has_strong en st t a
   | Into tg _ => has_strong en st t tg
   end.
@@ -138,7 +141,7 @@ Fixpoint ok_expr (en : env) (D : list nat) (e : expr) : bool :=
   match e with
   | Leaf l => inP (tau en) (leaf_dt en l)
   | Var x => memb x D
-  | Op a b | Div a b => ok_expr en D a && ok_expr en D b
+  | Op a b | Div a b | Alt a b => ok_expr en D a && ok_expr en D b
   | ToFloat a | RealOf a => ok_expr en D a
   | Into tg _ => ok_expr en D tg
   end.
@@ -146,7 +149,7 @@ Fixpoint strong_expr (en : env) (S : list nat) (e : expr) : bool :=
   match e with
   | Leaf l => strongP (tau en) (leaf_dt en l)
   | Var x => memb x S
-  | Op a b | Div a b => strong_expr en S a || strong_expr en S b
+  | Op a b | Div a b | Alt a b => strong_expr en S a || strong_expr en S b
   | ToFloat a | RealOf a => strong_expr en S a
   | Into tg _ => strong_expr en S tg
   end.
@@ -173,7 +176,7 @@ Fixpoint mask_guarded (e : expr) : bool :=
   match e with
   | Leaf LMask => false
   | Leaf _ | Var _ => true
-  | Op a b | Div a b => mask_guarded a && mask_guarded b
+  | Op a b | Div a b | Alt a b => mask_guarded a && mask_guarded b
   | ToFloat a | RealOf a => mask_guarded a
   | Into tg _ => mask_guarded tg
   end.
@@ -651,7 +654,7 @@ Fixpoint ok_expr2 (en : env) (D : list bool) (e : expr) : bool :=
   match e with
   | Leaf l => inP (tau en) (leaf_dt en l)
   | Var x => getb D x
-  | Op a b | Div a b => ok_expr2 en D a && ok_expr2 en D b
+  | Op a b | Div a b | Alt a b => ok_expr2 en D a && ok_expr2 en D b
   | ToFloat a | RealOf a => ok_expr2 en D a
   | Into tg _ => ok_expr2 en D tg
   end.
@@ -659,7 +662,7 @@ Fixpoint strong_expr2 (en : env) (S : list bool) (e : expr) : bool :=
   match e with
   | Leaf l => strongP (tau en) (leaf_dt en l)
   | Var x => getb S x
-  | Op a b | Div a b => strong_expr2 en S a || strong_expr2 en S b
+  | Op a b | Div a b | Alt a b => strong_expr2 en S a || strong_expr2 en S b
   | ToFloat a | RealOf a => strong_expr2 en S a
   | Into tg _ => strong_expr2 en S tg
   end.
@@ -690,6 +693,7 @@ Fixpoint exact_expr2 (en : env) (X : list bool) (e : expr) : bool :=
   | Leaf l => dt_eqb (leaf_dt en l) (tau en)
   | Var x => getb X x
   | Op a b | Div a b => exact_expr2 en X a || exact_expr2 en X b
+  | Alt a b => exact_expr2 en X a && exact_expr2 en X b
   | ToFloat a => exact_expr2 en X a
   | RealOf _ => false
   | Into tg _ => exact_expr2 en X tg
@@ -722,6 +726,7 @@ Fixpoint exact_expr (en : env) (X : list nat) (e : expr) : bool :=
   | Leaf l => dt_eqb (leaf_dt en l) (tau en)
   | Var x => memb x X
   | Op a b | Div a b => exact_expr en X a || exact_expr en X b
+  | Alt a b => exact_expr en X a && exact_expr en X b
   | ToFloat a => exact_expr en X a
   | RealOf _ => false
   | Into tg _ => exact_expr en X tg
